@@ -532,7 +532,8 @@ W_CALL = Contract(
                                 "out.opened == 0 and out.n_yield == 1)",
         "reject.416": "implies(tr.status == status_line(416), hl_has(tr.hl, 'Content-Range') and "
                       "hl_get(tr.hl, 'Content-Range') == '*/' + str(size()) or not honoured() or acceptable())",
-        "head.empty": "implies(head() and (not honoured() or acceptable()), out.out_len == 0 and out.opened == 0)",
+        # HEAD never has a body - also not on the 400 / 416 answers
+        "head.empty": "implies(head(), out.out_len == 0 and out.opened == 0)",
     },
     axioms=["forall(a, forall(b, implies(status_line(a) == status_line(b), a == b)))"],
     assumptions=["A-status-table", "A-server", "A-re-1", "A-int-1"],
@@ -922,7 +923,8 @@ A_CALL = Contract(
                                 "out.opened == 0 and out.n_body == 1)",
         "reject.416": "implies(honoured() and not acceptable() and tr.code == 416, hl_has(tr.hl, 'content-range') and "
                       "hl_get(tr.hl, 'content-range') == '*/' + str(size()))",
-        "head.empty": "implies(head() and (not honoured() or acceptable()), out.out_len == 0 and out.opened == 0)",
+        # HEAD never has a body - also not on the 400 / 416 answers
+        "head.empty": "implies(head(), out.out_len == 0 and out.opened == 0)",
         "fd.closed": "out.opened == out.fd_closed",
     },
     invariants={1: [
@@ -933,7 +935,8 @@ A_CALL = Contract(
     ]},
     cuts={},
     assumptions=["A-server", "A-re-1", "A-int-1"],
-    canaries={"never_partial": "tr.code != 206"},
+    # (as on the WSGI side: the whole-file path needs no string search; a canary on the 206 path flips under load)
+    canaries={"never_full": "tr.code != 200"},
 )
 
 
